@@ -173,8 +173,9 @@ Definition spec_rename (t : node) (src tgt : list name) : node * res unit :=
           else if is_tdir tn then (t, Err IsADirectory)
           else if is_tdir sn then (t, Err NotADirectory)
           else
-            let t1 := tmod t (parent tgt) (tupd (upper (leaf tgt)) (fun _ => sn)) in
-            (tmod t1 (parent src) (tdel (upper (leaf src))), Ok tt)
+            (* `del par['children'][name.upper()]`, then the target slot takes the node *)
+            let t1 := tmod t (parent src) (tdel (upper (leaf src))) in
+            (tmod t1 (parent tgt) (tupd (upper (leaf tgt)) (fun _ => sn)), Ok tt)
         end
       | Ok None =>
         match twalk t (parent tgt) with
@@ -182,8 +183,8 @@ Definition spec_rename (t : node) (src tgt : list name) : node * res unit :=
         | Ok None => (t, Err FileNotFound)
         | Ok (Some (File _)) => (t, Err NotADirectory)
         | Ok (Some (Dir _)) =>
-          let t1 := tmod t (parent tgt) (fun ch => ch ++ [(leaf tgt, sn)]) in
-          (tmod t1 (parent src) (tdel (upper (leaf src))), Ok tt)
+          let t1 := tmod t (parent src) (tdel (upper (leaf src))) in
+          (tmod t1 (parent tgt) (fun ch => ch ++ [(leaf tgt, sn)]), Ok tt)
         end
       end
     end
